@@ -31,7 +31,7 @@ def one(name):
         return name, "never-caught", ""
     chk, tier = fired[0].split(":")
     pid = meta.get("property") or name.split("_")[0]
-    p = subprocess.run([sys.executable, os.path.join(VERIF, "tools", "eval_seed.py"), pid, d, "--skip-suite", "--checks", chk, "--tier", tier],
+    p = subprocess.run([sys.executable, os.path.join(VERIF, "tools", "eval_seed.py"), pid, d, "--skip-suite", "--skip-demo", "--checks", chk, "--tier", tier],
                        stdout=subprocess.PIPE, stderr=subprocess.STDOUT, cwd=VERIF)
     out = p.stdout.decode("utf8", "replace")
     if "PATCH DOES NOT APPLY" in out:
